@@ -119,6 +119,12 @@ TABLE = {
                      "symbolic mode, and inferred objects must be real instances.",
                 technique="TLA+ denotational spec + TLC-generated programs replayed under every ambient mode + TLC trace validation",
                 ref="7 C09"),
+    "C18": dict(text="TLC model-checks that every rewrite of EQLSyntax!Variants preserves the denotation for all programs of the "
+                     "bounded generator on a reference world (RewriteCheck); TLC then derives the variants of every generated "
+                     "program, the harness adds permuted domains, reversed declaration order and permuted selection lists, and "
+                     "each variant executed on the library must satisfy the denotation and return the original's row set.",
+                technique="TLA+ rewrite relation model checked against the denotation + TLC-derived variants replayed + TLC trace validation (metamorphic and against EQLSem)",
+                ref="7 C18"),
 }
 
 REASON_PENDING = "check not built yet (work in progress; see DESIGN.md section 10)"
